@@ -334,3 +334,31 @@ Definition call_clauses (cfg : config) (pairs : list pair) (sent : string) (rp :
    (decode_clause_name cfg rp, decode_ok cfg rp o);
    ("strict-invalid-accepted-on-replay", accepted_body_ok cfg o);
    ("plain-sent-if-none-match", plain_ok cfg sent)].
+
+(* ================================================================== *)
+(* Timing.  NewWebhookExecutor gives the client http.Client{Timeout: hookTimeout}:
+   the timeout bounds the WHOLE exchange - connecting, waiting for the status
+   line and headers, and reading the body.  An exchange is described by when
+   the backend sends its headers and when it sends the last body byte
+   (milliseconds after the request; None = never).  What Call sees of it:      *)
+Record exchange := mkExchange { x_headers_ms : option Z; x_done_ms : option Z }.
+
+Definition within (timeout_ms : Z) (t : option Z) : bool :=
+  match t with Some v => v <=? timeout_ms | None => false end.
+
+(* the part of the exchange the client needs is over in time (a 429 is answered
+   from the headers alone: Call does not read its body) *)
+Definition exchange_in_time (timeout_ms : Z) (x : exchange) (r : response) : bool :=
+  within timeout_ms (x_headers_ms x) &&
+  ((r_status r =? 429) || within timeout_ms (x_done_ms x)).
+
+Definition timed_reply (timeout_ms : Z) (x : exchange) (r : response) : reply :=
+  if negb (within timeout_ms (x_headers_ms x)) then TransportError      (* client.Do fails *)
+  else if within timeout_ms (x_done_ms x) then Reply r
+  else Reply (mkResp (r_status r) (r_etag r) (r_retry r) (r_body r) true). (* io.ReadAll fails *)
+
+(* clause timeout-not-enforced: an exchange that exceeds the configured timeout
+   is an error, and the call has returned within timeout + slack *)
+Definition timeout_ok (timeout_ms : Z) (x : exchange) (r : response) (o : outcome)
+    (returned_in_bound : bool) : bool :=
+  exchange_in_time timeout_ms x r || (returned_in_bound && outcome_eqb o Err).
